@@ -23,7 +23,12 @@ Definition family (r : Z) : list (list tx) := [
   [mk_tx 1 5 NoExt [cv 1 100000000000000000]; mk_tx 1 86400 NoExt [Exec 1 [ed 1 r]]];
   [mk_tx 0 5 NoExt [Wasm 0 10 [cv 10 100000000000000000]]; mk_tx 0 86400 NoExt [Wasm 0 10 [ed 10 r]]];
   [mk_tx 1 5 EvmExt [cv 1 r]];
-  [mk_tx 1 5 OtherExt [cv 1 r]]
+  [mk_tx 1 5 OtherExt [cv 1 r]];
+  [mk_tx 1 5 NoExt [Exec 1 [Leaf (Send 1)]; cv 1 r]];
+  [mk_tx 1 5 NoExt [Leaf (Send 1); cv 1 r]];
+  [mk_tx 1 5 NoExt [Exec 1 [Exec 1 [Leaf (Send 1)]; cv 1 r]]];
+  [mk_tx 0 5 NoExt [Wasm 0 10 [Exec 10 [Leaf (Send 10)]; cv 10 r]]];
+  [mk_tx 1 5 NoExt [cv 1 100000000000000000]; mk_tx 1 86400 NoExt [Exec 1 [Leaf (Send 1)]; ed 1 r]]
 ].
 
 Definition sweep_cases : list (list tx) :=
